@@ -450,3 +450,27 @@ func renderNewick(ts gen.TreeSpec) string {
 	b.WriteByte(';')
 	return b.String()
 }
+
+// marshalKeeper keeps the slices returned by MarshalText and later verifies that they were
+// not overwritten by subsequent calls (a caller may marshal several records before using
+// the texts).
+type marshalKeeper struct {
+	kept, copies [][]byte
+	what         []string
+}
+
+func (k *marshalKeeper) keep(what string, mt []byte) {
+	k.kept = append(k.kept, mt)
+	k.copies = append(k.copies, bytes.Clone(mt))
+	k.what = append(k.what, what)
+}
+
+func (k *marshalKeeper) verify() error {
+	for i := range k.kept {
+		if !bytes.Equal(k.kept[i], k.copies[i]) {
+			return fmt.Errorf("the bytes returned by MarshalText for %s were overwritten by a later MarshalText call: %s, was %s",
+				k.what[i], gen.Abbrev(k.kept[i]), gen.Abbrev(k.copies[i]))
+		}
+	}
+	return nil
+}
